@@ -8024,6 +8024,32 @@ fn compare_wire_values(a: Option<&WireValue>, b: Option<&WireValue>) -> std::cmp
     }
 }
 
+/// Verification accessors for the private result-ordering helpers (read-only wrappers).
+#[cfg(inputlayer_verif)]
+pub mod verif_order {
+    use super::{SortDirection, WireTuple, WireValue};
+
+    pub fn compare_wire_values(a: Option<&WireValue>, b: Option<&WireValue>) -> std::cmp::Ordering {
+        super::compare_wire_values(a, b)
+    }
+
+    pub fn sort_rows(rows: Vec<WireTuple>, order_by: &[(usize, SortDirection)]) -> Vec<WireTuple> {
+        super::sort_rows(rows, order_by)
+    }
+
+    pub fn apply_pagination(
+        rows: Vec<WireTuple>,
+        limit: Option<usize>,
+        offset: Option<usize>,
+    ) -> Vec<WireTuple> {
+        super::apply_pagination(rows, limit, offset)
+    }
+
+    pub fn wire_value_type_rank(v: &WireValue) -> u8 {
+        super::wire_value_type_rank(v)
+    }
+}
+
 /// Assign a rank to each WireValue variant for stable cross-type ordering.
 fn wire_value_type_rank(v: &WireValue) -> u8 {
     match v {
